@@ -7,6 +7,7 @@
 //	  retry [extra=<ns>]                                      -> <resp> t=<ns> | noretry
 //	  at <ns> preq <src> <amount> <n> <goroutines> [rates=<…>] -> 200=<a> 429=<b> 500=<c>
 //	      n requests of one source issued from g goroutines at one frozen instant (order-free counts; not with solo=1)
+//	      barrier=1: the first g calls of the rate extractor rendezvous inside it (300 ms at most)
 //	  park-reject                                             -> ok    (not with solo=1)
 //	      the next request that is refused parks inside the limiter's ErrorHandler, i.e. after consumeRates returned the
 //	      error and before the real RateErrHandler reads it; that request answers `parked`
@@ -126,6 +127,51 @@ var (
 	interned = map[string]*ratelimit.RateSet{}
 )
 
+// oneShot is a rendezvous inside the rate extractor (`preq … barrier=1`): the first callers wait until `want` of them are
+// inside it at once, or 300 ms have passed; after that it is transparent.  The limiter calls the rate extractor while it
+// holds its mutex, so on the code as it is only one caller is ever inside (the rendezvous times out, once) and the flood is
+// decided one request after the other; a limiter that looks a source up before it takes the mutex lets every caller of the
+// rendezvous see "no entry yet".
+type oneShot struct {
+	mu   sync.Mutex
+	want int
+	in   int
+	done bool
+	ch   chan struct{}
+}
+
+func (b *oneShot) wait() {
+	b.mu.Lock()
+	if b.done {
+		b.mu.Unlock()
+		return
+	}
+	b.in++
+	if b.in >= b.want {
+		b.done = true
+		close(b.ch)
+		b.mu.Unlock()
+		return
+	}
+	ch := b.ch
+	b.mu.Unlock()
+	select {
+	case <-ch:
+	case <-time.After(300 * time.Millisecond):
+		b.mu.Lock()
+		if !b.done {
+			b.done = true
+			close(b.ch)
+		}
+		b.mu.Unlock()
+	}
+}
+
+var (
+	rateBarrierMu sync.Mutex
+	rateBarrier   *oneShot
+)
+
 // clientIPMode (`cfg rate … ext=clientip`): the limiters of the scenario use the stock utils.NewExtractor("client.ip");
 // the <src> field of an op is then the request's RemoteAddr, verbatim, and every request costs one token.
 var clientIPMode bool
@@ -144,6 +190,12 @@ func newLimiter(rates string, capacity int, opts ...ratelimit.TokenLimiterOption
 	// the extractor hands out one shared *RateSet per distinct rates= text of the scenario (the way a
 	// per-plan configuration would), for every source and every limiter of the scenario
 	extractRates := ratelimit.RateExtractorFunc(func(r *http.Request) (*ratelimit.RateSet, error) {
+		rateBarrierMu.Lock()
+		b := rateBarrier
+		rateBarrierMu.Unlock()
+		if b != nil {
+			b.wait()
+		}
 		if v := r.Header.Get("X-Rates"); v != "" {
 			internMu.Lock()
 			defer internMu.Unlock()
@@ -289,6 +341,12 @@ func (s *rateH) Op(f []string) string {
 			return "bad-op"
 		}
 		hx.AdvanceTo(hx.Atoi64(f[1]))
+		if hx.KVInt(f, "barrier", 0) == 1 && g > 1 && n >= g {
+			rateBarrierMu.Lock()
+			rateBarrier = &oneShot{want: g, ch: make(chan struct{})}
+			rateBarrierMu.Unlock()
+			defer func() { rateBarrierMu.Lock(); rateBarrier = nil; rateBarrierMu.Unlock() }()
+		}
 		return s.flood(f[3], f[4], rates, n, g)
 	case len(f) == 1 && f[0] == "park-reject":
 		if s.solo != nil || s.parked != nil {
